@@ -195,7 +195,11 @@ def _decompress_body_gzip(data: bytes, *, max_output_size: int | None = None) ->
     chunks: list[bytes] = []
     total = 0
     remaining = data
-    while remaining or do.unconsumed_tail:
+    # ``do.eof`` ends the loop: once the member's trailer has been read zlib
+    # produces nothing more and moves the rest of the input to ``unused_data``,
+    # so neither ``chunk`` nor ``unconsumed_tail`` can signal completion when
+    # the last call stopped on the output bound rather than on the input.
+    while not do.eof and (remaining or do.unconsumed_tail):
         if do.unconsumed_tail:
             inbuf = do.unconsumed_tail
         else:
